@@ -14,8 +14,10 @@ outcome class, number of records, byte ranges of the yielded frames.
 Property side (independent of the model): every yielded record equals the record written at that position
 and no extra record appears.
 """
+import copy
 import os
 import pickle
+import pickletools
 import shutil
 import tempfile
 
@@ -34,7 +36,8 @@ RULE = ('cases = one fit output file each (kind fitter/direct, 1..4 records, sto
         'include a cut inside a record; distinct = distinct canonical hash of the generated file description')
 REQUIRED_BRANCHES = ['open_error', 'iter_error', 'end_at_record_boundary', 'end_inside_record', 'offset_0',
                      'with_model_fluxes', 'without_model_fluxes', 'records_1', 'records_2', 'records_3', 'records_4',
-                     'fitter', 'direct', 'fit_function', 'yielded_1', 'yielded_2', 'yielded_3',
+                     'fitter', 'direct', 'fit_function', 'history_rewrite', 'history_shared_source', 'big_record',
+                     'yielded_1', 'yielded_2', 'yielded_3',
                      'zero_fit_first', 'zero_fit_middle', 'zero_fit_last', 'zero_fit_consecutive', 'complete_file']
 ASSUMPTIONS = ['CPython\'s unpickler is a deterministic function of the bytes it consumes (values are not modelled, only framing)',
                'the pickles are protocol 2 as written by FitInfoFile.write (opcode table of protocols 0-2)']
@@ -42,6 +45,8 @@ EXHAUSTIVE = {'quick': False, 'thorough': True}
 TRUSTED_EXTRA = ['os.truncate on a copy of the written file reproduces a crash at that byte']
 N = {'quick': 48, 'thorough': 200}
 SMALL_REC = 3000      # quick: files whose record part is at most this long are cut at every offset inside the records
+NOPS = 150            # quick: sampled opcode boundaries inside the records of a file that is not cut at every offset
+NBIG = 5000           # fits in the "big" record (more than any plausible per-pickle chunk size such as 4096)
 NHEAD = 150           # quick: sampled offsets inside the header of such a file (plus the header frame boundaries +-2)
 NSAMPLE = 400
 NH = 3                # header pickles written by FitInfoFile.write
@@ -71,6 +76,31 @@ def gen_case(rng, directed=None):
         conv = [conv[0]] * nrec
         zero = [None] * nrec
     case = dict(kind=kind, nrec=nrec, conv=conv, zero=zero, oseed=rng.randrange(1 << 30))
+    if kind == 'history':
+        # write histories over shared objects: what is on disk must be each record as it was when written
+        mode = directed.get('mode') or rng.choice(['rewrite', 'shared_source', 'shared_source_inplace'])
+        nrec = case['nrec'] = max(2, nrec)
+        case['conv'] = conv = (conv + conv + [False, True])[:nrec]
+        case['zero'] = [None] * nrec
+        nb = rng.randint(1, 3)
+        nm = rng.randint(nrec + 1, 8)
+        case.update(mode=mode, model_dir='mdl', tab_w=[0.1, 100.], tab_chi=[nice(rng, 1, 1e4, 3), nice(rng, 1, 1e4, 3)],
+                    filters=[dict(name='F0', aperture_arcsec=3., wav=nice(rng, 0.3, 100, 3))],
+                    flags=[rng.choice([1, 2, 3, 4, 9]) for _ in range(nb)], nb=nb)
+        if mode == 'rewrite':
+            keeps = sorted(rng.sample(range(1, nm), nrec - 1), reverse=True)
+            case.update(rec=dict(names=['m%03d' % i for i in range(nm)], chi2=[nice(rng, 0.1, 1e3, 4) for _ in range(nm)],
+                                 fluxes=_flux_rows(rng, nm, nb), source_name='one_object'), keeps=keeps,
+                        conv=[conv[0]] * nrec)
+        else:
+            case['recs'] = []
+            for i in range(nrec):
+                k = rng.randint(1, nm)
+                case['recs'].append(dict(names=['m%03d_%d' % (j, i) for j in range(k)], chi2=[nice(rng, 0.1, 1e3, 4) for _ in range(k)],
+                                         fluxes=_flux_rows(rng, k, nb), source_name='shared_%d' % i,
+                                         src_flux=[nice(rng, 0.1, 100, 3) for _ in range(nb)],
+                                         src_err=[nice(rng, 0.01, 1, 2) for _ in range(nb)]))
+        return case
     if kind in ('fitter', 'fitfile'):
         nb = rng.randint(2, 4)
         nm = rng.randint(2, 4) if small else rng.randint(3, 12)
@@ -109,6 +139,10 @@ def gen_case(rng, directed=None):
                     tab_w=[0.1, 100.] if small else sorted({nice(rng, 0.05, 500, 3) for _ in range(rng.randint(3, 10))}),
                     recs=[])
         case['tab_chi'] = [nice(rng, 1, 1e4, 3) for _ in case['tab_w']]
+        big = directed.get('big')
+        if big is not None:
+            case['big'] = big % nrec           # this record holds NBIG fits, generated from `oseed` when the file is built
+            case['conv'][case['big']] = False
         for i in range(nrec):
             nm = rng.randint(1, 3) if small else rng.choice([1, 2, 5, 17, 40, rng.randint(3, 30)])
             chi2 = [nice(rng, 0.1, 1e3, 4) for _ in range(nm)]
@@ -138,10 +172,21 @@ def gen_cases(seed, tier):
                 dict(kind='fitter', nrec=4, conv='all', small=True, zero=[None, 'C', None, None]),
                 dict(kind='fitter', nrec=3, conv='none', small=True, zero=['N0', 'N0', None]),
                 # files written by sedfitter.fit() itself, with and without output_convolved
-                dict(kind='fitfile', nrec=2, conv='all', small=True), dict(kind='fitfile', nrec=4, conv='none', small=False)]
+                dict(kind='fitfile', nrec=2, conv='all', small=True), dict(kind='fitfile', nrec=4, conv='none', small=False),
+                # write histories over shared / re-used objects
+                dict(kind='history', mode='rewrite', nrec=3, conv='all'), dict(kind='history', mode='shared_source', nrec=3, conv='none'),
+                dict(kind='history', mode='shared_source_inplace', nrec=2, conv='mixed'),
+                # a record with more fits than any plausible per-pickle chunk
+                dict(kind='direct', nrec=2, conv='none', small=True, big=0, zero=Z[:2])]
+    if tier == 'thorough':
+        directed += [dict(kind='direct', nrec=3, conv='none', small=True, big=1, zero=Z[:3]),
+                     dict(kind='direct', nrec=1, conv='none', small=True, big=0, zero=Z[:1])]
     for i in range(N[tier]):
         rng = case_rng(seed, PID, i)
-        c = gen_case(rng, directed[i] if i < len(directed) else None)
+        d_i = directed[i] if i < len(directed) else None
+        if d_i is None and rng.random() < 0.12:
+            d_i = dict(kind='history')
+        c = gen_case(rng, d_i)
         c['tier'] = tier
         yield c
 
@@ -163,13 +208,65 @@ def _keep_zero(info, z):
 
 
 def produce(case, d):
-    """(the records that were written, path of the written file)"""
+    """(snapshots of the records as they were when written, their protocol-2 pickles taken at that moment, the path
+    of the written file, the metadata object)"""
     path = os.path.join(d, 'out.fitinfo')
+    if case['kind'] == 'history':
+        return write_history(case, path)
     if case['kind'] == 'fitfile':
-        return fit_file(case, d, path), path
-    infos = build_infos(case, d)
-    write_file(infos, path)
-    return infos, path
+        infos = fit_file(case, d, path)
+    else:
+        infos = build_infos(case, d)
+        write_file(infos, path)
+    return infos, [pickle.dumps(info, 2) for info in infos], path, infos[0].meta
+
+
+def write_history(case, path):
+    """one FitInfo written, cut down with keep() and written again; or distinct FitInfo objects sharing one Source
+    that is renamed / refilled between the writes.  Every record is snapshotted at the moment it is written."""
+    from astropy import units as u
+    from sedfitter.fit_info import FitInfoFile
+    ext = pk.make_extinction(case['tab_w'], case['tab_chi'])
+    filters = [dict(name=f['name'], aperture_arcsec=f['aperture_arcsec'], wav=f['wav'] * u.micron) for f in case['filters']]
+    meta = (case['model_dir'], filters, ext)
+    snaps, written = [], []
+    fo = FitInfoFile(path, 'w')
+
+    def write(info):
+        written.append(pickle.dumps(info, 2))
+        snaps.append(copy.deepcopy(info))
+        fo.write(info)
+    if case['mode'] == 'rewrite':
+        r = case['rec']
+        info = pk.make_fitinfo(r['names'], r['chi2'], flags=case['flags'], source_name=r['source_name'],
+                               model_fluxes=r['fluxes'] if case['conv'][0] else None, meta=meta)
+        first_meta = info.meta
+        write(info)
+        for kk in case['keeps']:
+            info.keep(('N', kk))
+            write(info)
+    else:
+        shared = None
+        first_meta = None
+        for r, conv in zip(case['recs'], case['conv']):
+            info = pk.make_fitinfo(r['names'], r['chi2'], flags=case['flags'], source_name=r['source_name'],
+                                   model_fluxes=r['fluxes'] if conv else None, meta=meta)
+            if shared is None:
+                shared = info.source
+                first_meta = info.meta
+            else:
+                info.source = shared
+                info.meta = first_meta
+            shared.name = r['source_name']
+            if case['mode'] == 'shared_source_inplace':
+                shared.flux[:] = r['src_flux']
+                shared.error[:] = r['src_err']
+            else:
+                shared.flux = np.array(r['src_flux'], dtype=float)
+                shared.error = np.array(r['src_err'], dtype=float)
+            write(info)
+    fo.close()
+    return snaps, written, path, first_meta
 
 
 def write_package(case, d):
@@ -240,7 +337,12 @@ def build_infos(case, d):
         ext = pk.make_extinction(case['tab_w'], case['tab_chi'])
         filters = [dict(name=f['name'], aperture_arcsec=f['aperture_arcsec'], wav=f['wav'] * u.micron)
                    for f in case['filters']]
-        for r, conv, z in zip(case['recs'], case['conv'], case.get('zero') or [None] * case['nrec']):
+        for i, (r, conv, z) in enumerate(zip(case['recs'], case['conv'], case.get('zero') or [None] * case['nrec'])):
+            if case.get('big') == i:
+                g = np.random.RandomState(case['oseed'] % (2 ** 31))
+                r = dict(r, names=['m%04d' % j for j in range(NBIG)], chi2=list(np.round(g.uniform(0.1, 1e3, NBIG), 3)),
+                         av=list(np.round(g.uniform(0, 30, NBIG), 3)), sc=list(np.round(g.uniform(-3, 3, NBIG), 3)))
+                conv = False
             info = pk.make_fitinfo(r['names'], [_f(c) for c in r['chi2']], av=r['av'], sc=r['sc'], flags=r['flags'],
                                    source_name=r['source_name'], model_fluxes=r['fluxes'] if conv else None,
                                    meta=(case['model_dir'], filters, ext))
@@ -329,7 +431,28 @@ def same_record(got, written_obj, written_bytes):
         return False
 
 
-def choose_offsets(case, n, hlen, marks, layout_known, head_marks=()):
+def opcode_marks(data, start):
+    """offsets at which an opcode starts, for whatever sequence of pickles follows `start` (used only to aim cuts at
+    the places where the reader meets EOFError rather than a truncated argument)"""
+    out = []
+    pos = start
+    try:
+        while pos < len(data):
+            end = pos
+            for op, arg, p in pickletools.genops(data[pos:]):
+                out.append(pos + p)
+                end = pos + p + 1
+                if op.name == 'STOP':
+                    break
+            else:
+                break
+            pos = end
+    except Exception:     # noqa: not a pickle stream from here on (e.g. a raw block): keep what was found
+        pass
+    return out
+
+
+def choose_offsets(case, n, hlen, marks, layout_known, head_marks=(), op_marks=()):
     """thorough: every offset 0..n.  quick, small record part: every offset from the end of the header on, the header
     frame boundaries +-2 and NHEAD sampled header offsets (the header is the same few pickles in every file; the
     records are where files differ).  quick, larger file: the marks (frame boundaries) +-2, the ends of the file, a
@@ -351,6 +474,9 @@ def choose_offsets(case, n, hlen, marks, layout_known, head_marks=()):
         return sorted(pts), False, True
     if not layout_known and n <= SMALL_REC + 3000:
         return list(range(n + 1)), True, True
+    ops = sorted(set(op_marks))
+    for b in (ops if len(ops) <= NOPS else rng.sample(ops, NOPS)):
+        pts.add(b)
     # an unexpected file layout (not header + one pickle per record) gets a three times denser sample
     want = (NSAMPLE if layout_known else 3 * NSAMPLE) + len(pts)
     want = min(want, n)
@@ -383,13 +509,11 @@ def sweep(case, with_model=True):
     d = tempfile.mkdtemp(prefix='c19_')
     branches = set()
     try:
-        infos, path = produce(case, d)
+        infos, written, path, meta = produce(case, d)
         data = open(path, 'rb').read()
-        written = [pickle.dumps(info, 2) for info in infos]
         k = len(infos)
         n = len(data)
         # the layout FitInfoFile.write is modelled to produce: three header pickles, then one pickle per record
-        meta = infos[0].meta
         head_parts = [pickle.dumps(x, 2) for x in (meta.model_dir, meta.filters, meta.extinction_law)]
         head = b''.join(head_parts)
         tail = b''.join(written)
@@ -409,8 +533,12 @@ def sweep(case, with_model=True):
             for a, b in model_full[2]:
                 marks += [a, b]
         head_marks = [len(head_parts[0]), len(head_parts[0]) + len(head_parts[1])] if hlen else []
-        offsets, exhaustive, exhaustive_rec = choose_offsets(case, n, hlen, sorted(set(marks)), layout_known, head_marks)
-        branches.add('fit_function' if case['kind'] == 'fitfile' else case['kind'])
+        offsets, exhaustive, exhaustive_rec = choose_offsets(case, n, hlen, sorted(set(marks)), layout_known, head_marks,
+                                                             opcode_marks(data, hlen))
+        branches.add(dict(fitfile='fit_function', history='history_' + case.get('mode', '').replace('_inplace', ''))
+                     .get(case['kind'], case['kind']))
+        if case.get('big') is not None:
+            branches.add('big_record')
         branches.add('records_%d' % k)
         if any(case['conv']):
             branches.add('with_model_fluxes')
@@ -525,6 +653,8 @@ def shrink(case):
             return bool(sweep(c, with_model=False)['violates'])
         except Exception:
             return False
+    if case['kind'] == 'history' or case.get('big') is not None:
+        return case
     while cur['nrec'] > 1:
         c = dict(cur)
         c['nrec'] = cur['nrec'] - 1
